@@ -155,7 +155,7 @@ func VerifPoolOneHolder() {
 	}
 	how := zzverif.Choose("ending", 5)
 	pr, pw := io.Pipe()
-	src := zzverif.Bytes("src", 1+zzverif.Choose("L", 3))
+	src := zzverif.Bytes("src", zzverif.Choose("L", 4)) // 0..3 bytes: the empty message has its own way out of the loop
 	switch how {
 	case 0, 1: // clean end / callback failure on a forked segment
 		failAt := -1
